@@ -385,6 +385,35 @@ fn ok_suite(suite: &str, a: &[&str]) -> Option<String> {
             })
         }
         "ok_tri_contains" => verdict(|| Triangle::new(pt(a[0], a[1]), pt(a[2], a[3]), pt(a[4], a[5])).contains(pt(a[6], a[7]))),
+        "ok_measure" | "ok_draw_plain" => {
+            // custom mono font: x y baseline n underline cw ch sp bl uo uh
+            use embedded_graphics::mono_font::{mapping::ASCII, DecorationDimensions, MonoFont, MonoTextStyleBuilder};
+            use embedded_graphics::text::{renderer::TextRenderer, Baseline};
+            let empty: [u8; 0] = [];
+            let font = MonoFont {
+                image: ImageRaw::new(&empty, Size::zero()).unwrap(),
+                glyph_mapping: &ASCII,
+                character_size: Size::new(u(a[5]), u(a[6])),
+                character_spacing: u(a[7]),
+                baseline: u(a[8]),
+                underline: DecorationDimensions::new(u(a[9]), u(a[10])),
+                strikethrough: DecorationDimensions::new(0, 1),
+            };
+            let mut b = MonoTextStyleBuilder::<Rgb565>::new().font(&font);
+            if a[4] == "1" {
+                b = b.underline();
+            }
+            let cs = b.build();
+            let baseline = match a[2] { "0" => Baseline::Top, "1" => Baseline::Bottom, "2" => Baseline::Middle, _ => Baseline::Alphabetic };
+            let text = "a".repeat(us(a[3]));
+            let pos = pt(a[0], a[1]);
+            if suite == "ok_measure" {
+                verdict(|| cs.measure_string(&text, pos, baseline))
+            } else {
+                let mut t = NullTarget { bb: Rectangle::new(Point::zero(), Size::new(64, 64)), n: 0, sum: 0 };
+                verdict(|| cs.draw_string(&text, pos, baseline, &mut t).unwrap())
+            }
+        }
         "ok_line_height" => verdict(|| if a[0] == "1" { LineHeight::Percent(u(a[1])).to_absolute(u(a[2])) } else { LineHeight::Pixels(u(a[1])).to_absolute(u(a[2])) }),
         "ok_image_new" => {
             let sz = Size::new(u(a[0]), u(a[1]));
